@@ -638,3 +638,27 @@ Proof.
     rewrite rev_app_distr in Hg. simpl in Hg. rewrite removelast_app by discriminate. simpl.
     rewrite app_nil_r. apply in_rev. exact Hg.
 Qed.
+
+(** ** [freshb] decides [Fresh] *)
+
+Lemma nodupb_NoDup l : nodupb l = true -> NoDup l.
+Proof.
+  induction l as [|x l IH]; intros H; [constructor|].
+  simpl in H. apply andb_true_iff in H as [H1 H2]. constructor; [|auto].
+  intros Hin. apply negb_true_iff in H1.
+  assert (existsb (str_eqb x) l = true).
+  { apply existsb_exists. exists x. split; [exact Hin | apply str_eqb_refl]. }
+  congruence.
+Qed.
+
+Lemma freshb_Fresh alt_escape compile render_block k d slugs :
+  freshb alt_escape compile render_block k d slugs = true ->
+  Fresh alt_escape compile render_block k d slugs.
+Proof.
+  unfold freshb, Fresh. intros H. apply andb_true_iff in H as [H1 H2].
+  split; [apply nodupb_NoDup; exact H1|].
+  destruct (md_compile alt_escape compile d slugs) as [m|e]; [|discriminate].
+  destruct (subs_of render_block k m) as [subs|e] eqn:Es; [|discriminate].
+  exists m, subs. split; [reflexivity|]. split; [exact Es|].
+  apply Forall_forall. intros ph Hph. rewrite forallb_forall in H2. apply Nat.eqb_eq. apply H2. exact Hph.
+Qed.
